@@ -315,7 +315,7 @@ func runC10(c *sim.Ctx) *sim.Violation {
 	// (2) a writer that refuses
 	var E error
 	fe, _ := link.NewFaultErr(c, fmt.Sprintf("writer failure #%d", c.Seq()))
-	E = fe
+	E = fe.E()
 	wireE := fe.Wire()
 	if _, isOp := wireE.(*net.OpError); isOp {
 		E = wireE
